@@ -1501,15 +1501,21 @@ def create_pipes(net, from_junctions, to_junctions, std_type, length_km,
 
     if isinstance(std_type, Iterable) and not isinstance(std_type, str):
         pipe_parameters = {"inner_diameter_mm": [], "outer_diameter_mm": [], "k_mm": [], "u_w_per_m2k": []}
+        # values given by the caller hold for all pipes (as in create_pipe): they are taken out of kwargs once
+        u = _deprecation_check_u(kwargs)
+        k_given = {"k_mm": kwargs.pop("k_mm")} if "k_mm" in kwargs else {}
         for s in std_type:
             _check_std_type(net, s, "pipe", "create_pipes")
             params = retrieve_u(load_std_type(net, s, "pipe"))
-            u = _deprecation_check_u(kwargs)
-            k = _deprecation_check_k(kwargs, params)
-            pipe_parameters["u_w_per_m2k"] += [u if u is not None else params["u_w_per_m2k"]]
+            k = _deprecation_check_k(dict(k_given), params)
+            pipe_parameters["u_w_per_m2k"] += [params["u_w_per_m2k"]]
             pipe_parameters["k_mm"] += [k if k is not None else params["k_mm"]]
             pipe_parameters["inner_diameter_mm"] += [params["inner_diameter_mm"]]
             pipe_parameters["outer_diameter_mm"] += [params["outer_diameter_mm"]]
+        if u is not None:
+            pipe_parameters["u_w_per_m2k"] = u
+        if k_given:
+            pipe_parameters["k_mm"] = k_given["k_mm"]
     else:
         _check_std_type(net, std_type, "pipe", "create_pipes")
         pipe_parameters = retrieve_u(load_std_type(net, std_type, "pipe"))
